@@ -7,7 +7,7 @@ import numpy as np
 
 from .. import graphgen as G
 from .. import values as V
-from .common import Outcome, cinfer, quiet, time_limit, try_build, tval, Timeout
+from .common import Outcome, cinfer, cinfer_frame, quiet, time_limit, try_build, tval, Timeout
 
 ID = "C10"
 COQ_IMPORT = "Corr.CNodes"
@@ -30,10 +30,12 @@ def gen(rng, tier):
     for i in range(N):
         if rng.random() < 0.7:
             r = G.wild_graph(rng, max_nodes=rng.choice([3, 5, 8, 12]))
+            cons = False
         else:
             cg = G.consistent_graph(rng, max_nodes=8)
-            r, _ = G.erase(rng, cg)
-        cases.append({"kind": "rand", "recipe": V.enc_recipe(r), "twice": rng.random() < 0.5})
+            r, _ = G.erase(rng, cg, wrong_outputs=False)
+            cons = True
+        cases.append({"kind": "rand", "recipe": V.enc_recipe(r), "twice": rng.random() < 0.5, "consistent": cons})
     if tier == "thorough":
         mk = {
             "I": lambda: {"k": "Input", "args": {"input_type": np.array([2, 5, 5])}},
@@ -143,7 +145,7 @@ def run(c):
     b = try_build(r)
     times = 2 if c["twice"] else 1
     if b[0] != "ok":
-        return Outcome(cinfer(r, b, twice=c["twice"]), None, False, c["recipe"].__repr__())
+        return Outcome(cinfer_frame(r, b, twice=c["twice"]), None, False, c["recipe"].__repr__())
     g = b[1]
     before = snapshot(g)
     types0 = types_of(g)
@@ -188,6 +190,11 @@ def run(c):
         if raised[1] or t_after[1] != t_after[0]:
             fail = "a second infer_types() changed types (or raised) after a successful first one"
     res = ("ok", g, raised[times - 1], None)
-    coq = cinfer(r, res, twice=c["twice"])
+    # consistent graphs: exact comparison of all types; arbitrary graphs: frame + definedness only (which type
+    # wins on an inconsistent edge depends on the scheduling order, which C10 does not constrain)
+    if c.get("consistent"):
+        coq = cinfer(r, res, twice=c["twice"])
+    else:
+        coq = cinfer_frame(r, res, twice=c["twice"], raised_any=any(raised[:times]))
     has_cycle = any(a == b2 for a, b2 in g.edges) or len(set(g.edges)) < len(g.edges) or len(reach) < len(g.nodes)
     return Outcome(coq, fail, has_cycle, repr(c["recipe"]))
